@@ -122,6 +122,8 @@ def validate_path(I, vc, ctx, ob):
     from . import findings
     rp = ob.info.get("replay")
     if not rp or rp.get("entry") is None: return None
+    if any(str(m).startswith("stub:") for m in ctx.models_used) and not getattr(ctx, "model_refiners", None):
+        return None           # a nondeterministic stub decided this path: the real code may decide differently
     if ctx.check() != z3.sat: return None
     v = Violation(vc, "(validation)", list(ctx.taken), list(ctx.labels), ctx.solver.model(), ctx, dict(ob.info))
     refiners = getattr(ctx, "model_refiners", None)
